@@ -25,6 +25,8 @@ def gen_gv_op(rng: random.Random, allow_N=True, max_total=4096):
         kw["fs"] = fs
     if rng.random() < 0.4:
         kw["wavelength"] = rng.choice(WL_SET)
+    if rng.random() < 0.0 and not allow_N:
+        pass
     if allow_N and rng.random() < 0.5:
         kw["N"] = rng.choice([1, 2, 3, 8, 10, 17, 64])
         while kw["N"] * sps > max_total:
